@@ -106,6 +106,20 @@ def wl_history(ctx, rng, case):
             true[k] -= n
             removes += 1
             ctx.count("op.remove")
+        elif r < 0.95:
+            # misuse that the library refuses: hashes computed for a DEEPER sketch handed to add_alt / remove_alt.  Whatever the call
+            # does (raise, or ignore the surplus), the bounds below must keep holding: a refused call has no effect at all.
+            k = rng.choice(keys)
+            n = rng.randint(1, 3)
+            op = rng.choice(["add_alt", "remove_alt"]) if true[k] >= n else "add_alt"
+            long_hashes = s.hashes(k, s.depth + rng.randint(1, 3))
+            case.op(op + "-too-many-hashes", k, n)
+            try:
+                ret = getattr(s, op)(long_hashes, n)
+                true[k] += n if op == "add_alt" else -n
+            except Exception:
+                ret, k = None, None
+                ctx.count("refused_misuse_calls")
         else:
             case.op("reload")
             s2 = cls.frombytes(bytes(s), **bl.kw_hash(hf))
@@ -157,10 +171,10 @@ PROP = Prop(
           "mean/mean-min classes switched to min; every key queried after every call. Non-trivial = >= 4 operations with at least one removal "
           "or reload and a live key; distinct by hash of (parameters, operation sequence)."),
     workloads=[
-        Workload("history", wl_history, quick=1500, thorough=150000),
-        Workload("roomy_exact", wl_roomy_exact, quick=150, thorough=6000),
+        Workload("history", wl_history, quick=1500, thorough=600000),
+        Workload("roomy_exact", wl_roomy_exact, quick=150, thorough=24000),
     ],
     assumptions=["true counts kept by the harness; the unshared-counter predicate uses the sketch's public hashes() reduced mod width per row (documented addressing)",
                  "min mode: a counter that no other live key touches equals the key's true count, so the minimum over rows is exact (count-min definition)"],
-    required=["full_probes", "exactness_checks", "return_value_checks", "op.remove", "op.reload"],
+    required=["full_probes", "exactness_checks", "return_value_checks", "op.remove", "op.reload", "refused_misuse_calls"],
 )
